@@ -1,19 +1,21 @@
 (* C10 — all sort kinds give the same ordered rearrangement; order queries agree.
    ltb is any order with: ltb x y = true -> not (ltb y x) [lt_le], and "not greater" transitive [le_trans]
    (a strict weak order: integers, strings, floats without NaN); le x y := ltb y x = false.
-   FULL for merge sort and quick sort (the default): sorted + permutation for lists of every length, hence equal
-   results and idempotence.  PARTIAL for heap sort and the "stable" (tim) sort: they terminate within their fuel and
-   return a permutation of the input for every length (C10_heap_perm_partial, C10_tim_perm_partial); that their
-   output is ordered is checked by the correspondence run (all four kinds compared on every case) but not proved.
-   ALONG AN AXIS (via the lane theorem of C08): sorting keeps the shape and every lane of the result is the sort of the
-   corresponding lane of the input — a permutation of it for every kind, ordered for quicksort and merge sort
-   (C10_sort_axis).  ORDER QUERIES: unique returns the distinct values in strictly increasing order (C10_unique); argmax /
-   argmin return the first position of a largest / smallest element (C10_arg_extreme); argsort, for any of the four
-   kinds, assigns every element a position of the sorted lane holding that element, the assignment is a duplicate-free
-   list of positions (a permutation), and equal elements are ranked in order of appearance (C10_argsort).
-   That heap / tim sort outputs are ordered is checked by the correspondence run only. *)
+   FULL for all four kinds — merge sort, quick sort (the default), heap sort and the "stable" (tim) sort: for lists of
+   every length each terminates within its fuel and returns an ordered permutation of the input (C10_merge_sort,
+   C10_quick_sort, C10_heap_sort, C10_tim_sort, C10_every_kind); hence under an antisymmetric order all four return the
+   same list (C10_kinds_agree) and sorting is idempotent.  The heap sort proof is the sift-down invariant (every node
+   dominates its children) through the build and extraction loops; the tim sort proof is: insertion sort orders every
+   run of min_run elements, each merge pass turns ordered runs of length s into ordered runs of length 2 s.
+   ALONG AN AXIS (via the lane theorem of C08): sorting keeps the shape and every lane of the result is the ordered
+   rearrangement of the corresponding lane of the input, for every kind (C10_sort_axis, C10_sort_axis_all_kinds), and the
+   result does not depend on the kind (C10_sort_kind_independent).  ORDER QUERIES: unique returns the distinct values in
+   strictly increasing order (C10_unique); argmax / argmin return the first position of a largest / smallest element
+   (C10_arg_extreme); argsort, for any of the four kinds, assigns every element a position of the sorted lane holding
+   that element, the assignment is a duplicate-free list of positions (a permutation), and equal elements are ranked in
+   order of appearance (C10_argsort). *)
 From Coq Require Import Permutation Sorted.
-From ArrRs Require Import Index Axis Axis_proofs Broadcast_proofs Reduce Along_proofs Sort Sort_proofs Along_uses Order_proofs Argsort_proofs.
+From ArrRs Require Import Index Axis Axis_proofs Broadcast_proofs Reduce Along_proofs Sort Sort_proofs Along_uses Order_proofs Argsort_proofs Timsort_proofs Heapsort_proofs Sortkinds_proofs.
 
 Theorem C10_merge_sort : forall (T : Type) (ltb : T -> T -> bool),
   (forall x y, ltb x y = true -> le ltb x y) -> (forall x y z, le ltb x y -> le ltb y z -> le ltb x z) ->
@@ -92,6 +94,53 @@ Theorem C10_argsort : forall (T : Type) (ltb eqb : T -> T -> bool) (d : T),
     NoDup (elems r) /\
     (forall i j, i < j < len a -> nth i (elems a) d = nth j (elems a) d -> nth i (elems r) 0 < nth j (elems r) 0).
 Proof. exact @argsort1_spec. Qed.
+
+(* heap sort and the stable (tim) sort: ordered permutation, every length *)
+Theorem C10_heap_sort : forall (T : Type) (ltb : T -> T -> bool) (d : T),
+  (forall x y, ltb x y = true -> le ltb x y) -> (forall x y z, le ltb x y -> le ltb y z -> le ltb x z) ->
+  forall l, exists r, heap_sort ltb d l = Ok r /\ sorted ltb r /\ Permutation l r.
+Proof. exact @heap_sort_spec. Qed.
+
+Theorem C10_tim_sort : forall (T : Type) (ltb : T -> T -> bool) (d : T),
+  (forall x y, ltb x y = true -> le ltb x y) -> (forall x y z, le ltb x y -> le ltb y z -> le ltb x z) ->
+  forall l, exists r, tim_sort ltb d l = Ok r /\ sorted ltb r /\ Permutation l r.
+Proof. exact @tim_sort_spec. Qed.
+
+Theorem C10_every_kind : forall (T : Type) (ltb : T -> T -> bool) (d : T),
+  (forall x y, ltb x y = true -> le ltb x y) -> (forall x y z, le ltb x y -> le ltb y z -> le ltb x z) ->
+  forall k l, exists r, sort_list ltb d k l = Ok r /\ sorted ltb r /\ Permutation l r.
+Proof. exact @sort_list_spec. Qed.
+
+(* ALL FOUR KINDS RETURN THE SAME LIST *)
+Theorem C10_kinds_agree : forall (T : Type) (ltb : T -> T -> bool) (d : T),
+  (forall x y, ltb x y = true -> le ltb x y) -> (forall x y z, le ltb x y -> le ltb y z -> le ltb x z) ->
+  (forall x y, le ltb x y -> le ltb y x -> x = y) ->
+  forall k1 k2 l, sort_list ltb d k1 l = sort_list ltb d k2 l.
+Proof. exact @sort_kinds_agree. Qed.
+
+Theorem C10_sort_axis_all_kinds : forall (T : Type) (ltb : T -> T -> bool) (d : T),
+  (forall x y, ltb x y = true -> le ltb x y) -> (forall x y z, le ltb x y -> le ltb y z -> le ltb x z) ->
+  forall (a : arr T) z k,
+  wf a -> pos_shape (shape a) -> (Z.of_nat (ndim a) < two64)%Z -> axis_ok (ndim a) z ->
+  let ax := norm_nat (ndim a) z in
+  exists R, sort_arr ltb d a (Some z) (Ok k) = Ok R /\ wf R /\ shape R = shape a /\
+    forall c, in_range (shape a) c ->
+      let ln := elems (lane d a ax (remove_nth c ax)) in
+      get d R c = nth (nth ax c 0) (sorted_of ltb d k ln) d /\ Permutation ln (sorted_of ltb d k ln) /\
+      sorted ltb (sorted_of ltb d k ln).
+Proof. exact @sort_axis_all_kinds. Qed.
+
+Theorem C10_sort_kind_independent : forall (T : Type) (ltb : T -> T -> bool) (d : T),
+  (forall x y, ltb x y = true -> le ltb x y) -> (forall x y z, le ltb x y -> le ltb y z -> le ltb x z) ->
+  (forall x y, le ltb x y -> le ltb y x -> x = y) ->
+  forall (a : arr T) k1 k2,
+  sort_arr ltb d a None (Ok k1) = sort_arr ltb d a None (Ok k2) /\
+  forall z, wf a -> pos_shape (shape a) -> (Z.of_nat (ndim a) < two64)%Z -> axis_ok (ndim a) z ->
+    sort_arr ltb d a (Some z) (Ok k1) = sort_arr ltb d a (Some z) (Ok k2).
+Proof.
+  intros T ltb d H1 H2 H3 a k1 k2. split; [now apply sort_flat_kind_independent|].
+  intros z. now apply sort_axis_kind_independent.
+Qed.
 
 (* Z satisfies the order hypotheses (non-vacuity of the section assumptions) and an 8-element instance *)
 Example C10_nonvacuous :
